@@ -75,7 +75,8 @@ ENTRIES = {
     "accelerated_gradient_convex": E(U, "wc_accelerated_gradient_convex", "tight", [dict(mu=0, L=L, n=n) for L in (1.0, 3.0) for n in (1, 2, 5)]),
     "accelerated_gradient_strongly_convex": E(U, "wc_accelerated_gradient_strongly_convex", "upper", _mu_L_n(mus=(0.1,), ns=(1, 3))),
     "accelerated_proximal_point": E(U, "wc_accelerated_proximal_point", "upper",
-                                    [dict(A0=A0, gammas=[g] * n, n=n) for A0 in (1.0, 5.0) for g in (1.0, 0.5) for n in (1, 3)]),
+                                    [dict(A0=A0, gammas=[g] * n, n=n) for A0 in (1.0, 5.0) for g in (1.0, 0.5) for n in (1, 3)]
+                                    + [dict(A0=A0, gammas=gs, n=3) for A0 in (1.0, 5.0) for gs in ([3.0, 1.0, 0.3], [0.3, 1.0, 3.0])]),
     "heavy_ball_momentum": E(U, "wc_heavy_ball_momentum", "upper",
                              [dict(mu=mu, L=L, alpha=a / L, beta=math.sqrt((1 - a / L * mu) * (1 - a)), n=n) for mu, L in ((0.1, 1.0),) for a in (0.5, 0.25) for n in (1, 3)]),
     "heavy_ball_momentum_qg_convex": E(U, "wc_heavy_ball_momentum_qg_convex", "upper", prod(L=[1.0, 2.0], n=[1, 3, 5])),
@@ -94,7 +95,7 @@ ENTRIES = {
     "frank_wolfe": E(C, "wc_frank_wolfe", "upper", prod(L=[1.0, 2.0], D=[1.0, 2.0], n=[1, 4])),
     "douglas_rachford_splitting": E(C, "wc_douglas_rachford_splitting", "tight", prod(L=[1.0], alpha=[1.0], theta=[1.0], n=[2, 5, 10])),
     "douglas_rachford_splitting_contraction": E(C, "wc_douglas_rachford_splitting_contraction", "tight",
-                                                [dict(mu=0.1, L=1.0, alpha=a, theta=1.0, n=n) for a in (3.0, 1.0) for n in (1, 2)]),
+                                                [dict(mu=mu, L=L, alpha=a, theta=1.0, n=n) for mu, L in ((0.1, 1.0), (0.5, 2.0)) for a in (3.0, 1.0) for n in (1, 2)]),
     "improved_interior_algorithm": E(C, "wc_improved_interior_algorithm", "upper", [dict(L=1.0, mu=1.0, c=1.0, lam=1.0, n=n) for n in (1, 3, 5)]),
     "no_lips_in_bregman_divergence": E(C, "wc_no_lips_in_bregman_divergence", "tight", [dict(L=L, gamma=1 / L, n=n) for L in (0.1, 1.0) for n in (2, 3, 5)]),      # the documented rate 2/(n(n-1)) needs n >= 2
     "no_lips_in_function_value": E(C, "wc_no_lips_in_function_value", "tight", [dict(L=L, gamma=g / L, n=n) for L in (1.0, 2.0) for g in (0.5, 1.0) for n in (1, 3)]),
@@ -104,7 +105,7 @@ ENTRIES = {
     "no_lips_2": E(N, "wc_no_lips_2", "tight", [dict(L=L, gamma=1 / L, n=n) for L in (1.0, 2.0) for n in (1, 3)]),
     # ---- stochastic
     "saga": E(S, "wc_saga", "tight", [dict(L=1.0, mu=0.1, n=n) for n in (2, 5)] + [dict(L=2.0, mu=0.5, n=3)]),
-    "sgd": E(S, "wc_sgd", "tight", [dict(L=1.0, mu=0.1, gamma=1.0, v=v, R=R, n=n) for v in (1.0, 2.0, 0.5) for R in (2.0, 1.0) for n in (2, 5)]),
+    "sgd": E(S, "wc_sgd", "tight", [dict(L=L, mu=mu, gamma=1 / L, v=v, R=R, n=n) for L, mu in ((1.0, 0.1), (2.0, 0.5)) for v in (1.0, 2.0, 0.5) for R in (2.0, 1.0) for n in (2, 5)]),
     "sgd_overparametrized": E(S, "wc_sgd_overparametrized", "tight", [dict(L=L, mu=0.1 * L, gamma=1 / L, n=n) for L in (1.0, 2.0) for n in (2, 5)]),
     "point_saga": E(S, "wc_point_saga", "upper", [dict(L=1.0, mu=0.1, n=n) for n in (2, 5, 10)]),
     "randomized_coordinate_descent_smooth_convex": E(S, "wc_randomized_coordinate_descent_smooth_convex", "tight",
@@ -115,7 +116,7 @@ ENTRIES = {
     "accelerated_proximal_point_operators": E(M, "wc_accelerated_proximal_point", "tight", prod(alpha=[2.1, 1.0], n=[2, 5, 10])),
     "proximal_point_operators": E(M, "wc_proximal_point", "tight", prod(alpha=[2.1, 1.0], n=[2, 3, 6])),
     "optimal_strongly_monotone_proximal_point": E(M, "wc_optimal_strongly_monotone_proximal_point", "tight", prod(n=[2, 3, 5], mu=[0.23, 0.05])),
-    "douglas_rachford_splitting_operators": E(M, "wc_douglas_rachford_splitting", "tight", [dict(L=1.0, mu=0.1, alpha=a, theta=t) for a in (1.3, 1.0) for t in (0.9, 1.0)]),
+    "douglas_rachford_splitting_operators": E(M, "wc_douglas_rachford_splitting", "tight", [dict(L=L, mu=mu, alpha=a, theta=t) for L, mu in ((1.0, 0.1), (2.0, 0.1), (0.5, 1.0)) for a in (1.3, 1.0) for t in (0.9, 1.5)]),
     "optimistic_gradient": E(M, "wc_optimistic_gradient", "none", [dict(n=n, gamma=g / L, L=L) for L in (1.0, 2.0) for g in (0.25,) for n in (1, 3, 5)]),
     "past_extragradient": E(M, "wc_past_extragradient", "none", [dict(n=n, gamma=g / L, L=L) for L in (1.0, 2.0) for g in (0.25,) for n in (1, 3, 5)]),
     # ---- fixed point
@@ -127,12 +128,14 @@ ENTRIES = {
     "gradient_descent_lyapunov_1": E(PF, "wc_gradient_descent_lyapunov_1", "tight", [dict(L=L, gamma=1 / L, n=n) for L in (1.0, 2.0) for n in (1, 10)], abs_tol=5e-5),
     "gradient_descent_lyapunov_2": E(PF, "wc_gradient_descent_lyapunov_2", "tight", [dict(L=L, gamma=1 / L, n=n) for L in (1.0, 2.0) for n in (1, 10)], abs_tol=5e-5),
     "accelerated_gradient_method_potential": E(PF, "wc_accelerated_gradient_method", "tight", [dict(L=L, gamma=1 / L, lam=lam) for L in (1.0, 2.0) for lam in (10.0, 1.0)], abs_tol=5e-5),
-    "polyak_steps_in_distance_to_optimum": E(AD, "wc_polyak_steps_in_distance_to_optimum", "tight", [dict(L=L, mu=0.1 * L, gamma=2 / L) for L in (1.0, 2.0)], abs_tol=5e-5),
-    "polyak_steps_in_function_value": E(AD, "wc_polyak_steps_in_function_value", "tight", [dict(L=L, mu=0.1 * L, gamma=2 / L) for L in (1.0, 2.0)], abs_tol=5e-5),
+    "polyak_steps_in_distance_to_optimum": E(AD, "wc_polyak_steps_in_distance_to_optimum", "tight",
+                                              [dict(L=L, mu=0.1 * L, gamma=g / L) for L in (1.0, 2.0) for g in (1.0, 1.3, 2.0, 5.0, 10.0)], abs_tol=5e-5),
+    "polyak_steps_in_function_value": E(AD, "wc_polyak_steps_in_function_value", "tight",
+                                         [dict(L=L, mu=0.1 * L, gamma=g / L) for L in (1.0, 2.0) for g in (1.0, 1.3, 1.6, 1.9, 2.0)], abs_tol=5e-5),
     # ---- inexact proximal
     "accelerated_inexact_forward_backward": E(IP, "wc_accelerated_inexact_forward_backward", "upper", [dict(L=L, zeta=z, n=n) for L in (10.0, 1.0) for z in (0.87, 0.5) for n in (2, 5)]),
     "partially_inexact_douglas_rachford_splitting": E(IP, "wc_partially_inexact_douglas_rachford_splitting", "tight",
-                                                      [dict(mu=1.0, L=5.0, n=n, gamma=1.4, sigma=s) for n in (1, 3, 5) for s in (0.2, 0.1)]),
+                                                      [dict(mu=mu, L=L, n=n, gamma=g, sigma=s) for mu, L, g in ((1.0, 5.0, 1.4), (0.5, 2.0, 1.0)) for n in (1, 3, 5) for s in (0.2, 0.1)]),
     "relatively_inexact_proximal_point_algorithm": E(IP, "wc_relatively_inexact_proximal_point_algorithm", "upper", [dict(n=n, gamma=g, sigma=s) for n in (2, 5) for g in (2.0, 1.0) for s in (0.3, 0.1)]),
     # ---- tutorials / continuous time / low dimensional
     "gradient_descent_contraction": E(TU, "wc_gradient_descent_contraction", "tight", [dict(L=L, mu=0.1 * L, gamma=g / L, n=n) for L in (1.0, 2.0) for g in (1.0, 0.5) for n in (1, 2)]),
@@ -144,7 +147,7 @@ ENTRIES = {
     "halpern_iteration_low_dim": E(LD, "wc_halpern_iteration", "tight", prod(n=[2, 5]), abs_tol=None),
     "gradient_descent_low_dim": E(LD, "wc_gradient_descent", "tight", [dict(L=L, gamma=1 / L, n=n) for L in (1.0, 2.0) for n in (1, 3)]),
     "optimized_gradient_low_dim": E(LD, "wc_optimized_gradient", "tight", prod(L=[3.0, 1.0], n=[1, 3])),
-    "inexact_gradient_low_dim": E(LD, "wc_inexact_gradient", "tight", [dict(L=3.0, mu=0.1, epsilon=0.1, n=n) for n in (1, 2)]),
+    "inexact_gradient_low_dim": E(LD, "wc_inexact_gradient", "tight", [dict(L=L, mu=mu, epsilon=e, n=n) for L, mu, e in ((3.0, 0.1, 0.1), (1.0, 0.2, 0.3)) for n in (1, 2)]),
     "frank_wolfe_low_dim": E(LD, "wc_frank_wolfe", "upper", prod(L=[1.0], D=[1.0], n=[2, 5])),
 }
 
